@@ -30,9 +30,11 @@ class ProtoMonitor:
                     g['word.%d.%d.%s' % (t, d, kind)] = F
         g['bad_start'] = F          # C01: a process was spawned while some needed dependency was not ready
         g['bad_word'] = F           # C01 (watch clause): spawned while the last word from a dependency was not Ok
+        g['bad_decide'] = F         # ... and the decision to start (build future created / service spawned) was taken in such a state
         g['double_svc'] = F         # C11: a service spawned while its previous instance was running
         g['any_failed'] = F
         g['start_after_fail'] = F   # C07: a transitive dependent of a failed target was started
+        g['ok_on_fail'] = F         # C07: a target acknowledged (Ok) in the very step its execution failed
         g['kill_noreap'] = F
         g['nnotify'] = z3.BitVecVal(0, 2)
         return g
@@ -42,7 +44,7 @@ class ProtoMonitor:
         if k == 'build':
             return g['succeeded.%d' % d]
         if k == 'service':
-            return S['proc.%d' % d]
+            return g['nstart.%d' % d] != 0      # "has been started" during this invocation
         # aggregate: every dependency ready
         return z3.And([z3.Implies(sysm.dep[d][j], self.ready(sysm, S, g, j)) for j in range(d)] + [T])
 
@@ -62,8 +64,10 @@ class ProtoMonitor:
         tr = self.trans(sysm)
         bad_start = g['bad_start']
         bad_word = g['bad_word']
+        bad_decide = g['bad_decide']
         double_svc = g['double_svc']
         saf = g['start_after_fail']
+        okf = g['ok_on_fail']
         # words received in this step
         word = {}
         for t in range(n):
@@ -82,6 +86,8 @@ class ProtoMonitor:
             bad_start = z3.Or(bad_start, z3.And(sp, not_ready))
             wbad = z3.Or([z3.And(sysm.dep[t][d], z3.Not(word[(t, d, kind)])) for d in range(t) for kind in ('Build', 'Service')] + [F])
             bad_word = z3.Or(bad_word, z3.And(sp, wbad))
+            decide = obs.get('decide', t) if sysm.kinds[t] == 'build' else sp
+            bad_decide = z3.Or(bad_decide, z3.And(decide, wbad))
             if sysm.kinds[t] == 'service':
                 double_svc = z3.Or(double_svc, z3.And(sp, S['proc.%d' % t], z3.Not(obs.get('reap', t))))
             dep_failed = z3.Or([z3.And(tr[t][d], g['failed.%d' % d]) for d in range(t)] + [F])
@@ -90,12 +96,18 @@ class ProtoMonitor:
             res_err = z3.Or(obs.get('build_result', (t, 3)), obs.get('emit_err', 't%d' % t))
             g2['nresult.%d' % t] = sat_inc(g['nresult.%d' % t], res_ok)
             started_new = z3.Or(sp, obs.get('build_result', (t, 0)))
-            g2['succeeded.%d' % t] = z3.If(res_ok, T, z3.If(z3.Or(res_err, obs.get('notify', t)), F, g['succeeded.%d' % t]))
+            # sticky: "has finished its build successfully during this invocation"; the watch-mode clause
+            # (latest word received) is the separate bad_word monitor
+            g2['succeeded.%d' % t] = z3.Or(g['succeeded.%d' % t], res_ok)
+            emits_ok = obs.any('emit', lambda key, t=t: key[0] == t and key[2][0] == 'Ok' and key[2][2] == 't%d' % t)
+            okf = z3.Or(okf, z3.And(res_err, emits_ok))
             g2['failed.%d' % t] = z3.Or(g['failed.%d' % t], res_err)
         g2['bad_start'] = bad_start
         g2['bad_word'] = bad_word
+        g2['bad_decide'] = bad_decide
         g2['double_svc'] = double_svc
         g2['start_after_fail'] = saf
+        g2['ok_on_fail'] = okf
         g2['any_failed'] = z3.Or([g2['failed.%d' % t] for t in range(n)])
         g2['nnotify'] = sat_inc(g['nnotify'], obs.any('notify'))
         return g2
